@@ -4,11 +4,12 @@
    The converse (true relation + accepted call => the recorded witness satisfies) is completeness (C01) and is
    checked on every accepted case by the harness.  "Same relation as the run-time check" is decided per case by
    the harness (run-time acceptance <-> satisfiability of the captured R1CS, complete on small fields).
-   Partial in the same sense as C02: the link from these cores to the model's emitted constraint lists is by
-   reading Model/Gadgets.v, not yet a Coq theorem for every width. *)
+   The C03_model_* theorems link the cores to the constraint lists the model's gadgets really emit (outside guarded regions,
+   every bitlength, every assignment): Proofs/Adv.v, Proofs/AdvGadgets.v. *)
 From Coq Require Import ZArith List Znumtheory Lia.
 From PySnark.Base Require Import FieldZ.
-From PySnark.Proofs Require Import Sound.
+From PySnark.Model Require Import Lc Sym Gadgets.
+From PySnark.Proofs Require Import Sound Meta Adv AdvGadgets.
 Import ListNotations.
 Open Scope Z_scope.
 
@@ -57,6 +58,27 @@ Proof.
     apply (feq_small_false p (u - (hi - x - 1))); [lia|]. rewrite <- F. apply eq_feq; ring.
 Qed.
 End C03.
+Section C03_model.
+Variable p : Z.
+Hypothesis Hp : prime p.
+Variable w : var -> Z.
+Hypothesis W0 : w 0 = 1.
+Variable c : cfg.
+Variable s : @Gadgets.gst p.
+Hypothesis G : guard s = None.
+Notation "a == b" := (feq p a b) (at level 70).
+Notation ew := (AdvGadgets.ew w).
+Notation sat cs := (Forall (holds (p:=p) w) (cons_of cs)).
+(* assert_positive(bits=k) / to_bits(k): any satisfying assignment puts the operand in [0, 2^k) -- k is the width enforced *)
+Theorem C03_model_assert_positive : forall x k u s' cs, run (assert_positive x k) s = (inl u, s', cs) -> sat cs -> exists v, 0 <= v < 2 ^ Z.of_nat k /\ ew x == v.
+Proof. exact (assert_positive_forced Hp w W0 s G). Qed.
+(* assert_lt: y - x - 1 is forced into [0, 2^bitlength): with operands small relative to p, x < y *)
+Theorem C03_model_assert_lt : forall x y u s' cs, run (assert_lt c x y) s = (inl u, s', cs) -> sat cs ->
+  exists v, 0 <= v < 2 ^ Z.of_nat (nbits c) /\ ew y - ew x - 1 == v.
+Proof. exact (assert_lt_forced Hp w W0 c s G). Qed.
+End C03_model.
+Print Assumptions C03_model_assert_positive.
+Print Assumptions C03_model_assert_lt.
 Print Assumptions C03_assert_eq.
 Print Assumptions C03_assert_ne.
 Print Assumptions C03_nbit.
